@@ -59,6 +59,18 @@ def run_one(tapes, tier, scenario=None):
         snap["queue"] = len(sim.dispatcher.queue)
 
     k.on_finish = lambda k: before_teardown(sim)
+    lost = []
+
+    def on_all_blocked(k):
+        d = sim.dispatcher
+        if lost or d is None or not d.queue or d.stop_count:
+            return
+        idle = [t.name for t in k.threads if t.alive and t.kind == "worker" and t.blocked is not None
+                and str(t.blocked[2]).startswith("cv.wait:task:54")]
+        if idle:
+            lost.append((len(d.queue), idle, k.seq))
+
+    k.on_all_blocked = on_all_blocked
     fault = sc.get("fault")
     if fault:
         import errno as _errno
@@ -69,6 +81,9 @@ def run_one(tapes, tier, scenario=None):
     sim.run()
 
     feat = "+expect" if any(e["expect"] for exp in ctx.expected.values() for e in exp) else ""
+    if lost:
+        res.v("lost_wakeup", "idle_worker_with_queued_request", "all threads blocked at seq %d with %d task(s) in the dispatcher queue while worker(s) %r sleep on the queue condition" % (
+            lost[0][2], lost[0][0], lost[0][1]))
     if k.livelock:
         res.v("livelock", "io_spin" + feat, "I/O thread spins without progress: %r; channels %r" % (
             [e for e in k.history[-3:]], snap.get("chans")))
